@@ -24,6 +24,7 @@ def job_vary(ses, proto, what, fkind, akind, fkind2=None, akind2=None):
     tag = '%s vary=%s build(footer=%s,assertion=%s) parse(footer=%s,assertion=%s)' % (proto, what, fkind, akind, fkind2, akind2)
     Fb = inp.F if fkind == 'some' else StringVal(''); Ab = inp.A if akind == 'some' else StringVal('')
     any_accept = False; wit_ok = False
+    builder_frame_check(ses, w, E, tag, proto, fkind, akind)
     for se, re_ in E:
         if not is_ok(re_): continue
         T = re_[3][0]
@@ -89,6 +90,12 @@ def job_vary(ses, proto, what, fkind, akind, fkind2=None, akind2=None):
                             steps += [{'op': 'bytes_xor', 'in': '$k_pk', 'index': idx, 'mask': mask, 'out': nm},
                                       {'op': 'parse_core', 'proto': proto, 'token': '$T0', 'key': '$' + nm, 'footer': None if fkind2 == 'none' else f2, 'assertion': None if akind2 == 'none' else a2, 'out': 'R' + nm}]
                             alts.append([{'var': 'R' + nm, 'is': 'ok'}, {'var': 'T0', 'is': 'ok'}])
+                if what == 'assertion' and akind2 != 'none':
+                    # a comparison that folds the difference into a few bits passes for a small fraction of wrong assertions: one token, 1200 other assertions
+                    ma = dict(m, assertion='tenant-0000'.encode().hex(), message=''); steps.append(build_step(proto, ma, fkind, 'some', out='TA'))
+                    for i in range(1, 1201):
+                        steps.append({'op': 'parse_core', 'proto': proto, 'token': '$TA', 'key': '$k_pk', 'footer': None if fkind == 'none' else _txt(m.get('footer')), 'assertion': 'tenant-%04d' % i, 'out': 'RA%d' % i})
+                        alts.append([{'var': 'RA%d' % i, 'is': 'ok'}, {'var': 'TA', 'is': 'ok'}])
                 ses.violation('%s: the token is accepted although the %s differs' % (tag, what), m, {'steps': steps, 'violated_if': alts})
             v_, _ = ses.ask('%s: acceptance with the matching %s is reachable' % (tag, what), list(sd.pc) + [Not(differs)], 'sat')
             wit_ok = wit_ok or v_ == 'sat'
@@ -96,6 +103,44 @@ def job_vary(ses, proto, what, fkind, akind, fkind2=None, akind2=None):
     if not any_accept: ses.undecided.append('%s: no accepting path' % tag)
     ses.witnesses.append((tag + ': acceptance with the matching value is reachable on some path', 'sat' if wit_ok else 'unsat'))
     if not wit_ok: ses.undecided.append('%s: vacuous - no accepting path is satisfiable even with matching inputs' % tag)
+    ses.absorb(ex)
+
+
+def job_footer_swap(ses, proto):
+    """the footer segment of the authentic token is replaced by b64url(F2) (or removed) and the verifier expects exactly F2: acceptance forces F2 == F.
+    (job_vary changes only the verifier's expectation; this one changes the token to match it - what an attacker who wants another footer read does)"""
+    w = world(); ex = w.executor(); p = PROTOCOLS[proto]; public = p['p'] == 'Public'
+    inp = Inputs(proto); akind = 'some' if p['assertion'] else 'none'
+    E = encrypt_paths(w, ex, inp, 'some', akind); F2 = String('F2')
+    tag = '%s footer swap' % proto; n = 0
+    for se, re_ in E:
+        if not is_ok(re_): continue
+        T = re_[3][0]; sg = segments(T)
+        if sg is None or len(sg) not in (3, 4): continue
+        try: P = payload_of(T)
+        except Unsupported: continue
+        for with_seg in (True, False):
+            T2 = Concat(StringVal(proto + '.'), b64(P), StringVal('.'), b64(utf8(F2))) if with_seg else Concat(StringVal(proto + '.'), b64(P))
+            side = [Length(utf8(F2)) < 2**40] + ([F2 != StringVal('')] if with_seg else [F2 == StringVal('')])
+            D = decrypt_paths(w, ex, proto, T2, inp.dec_key(), F2, inp.A, 'some', akind, assume=list(se.pc) + side)
+            for sd, rd in D:
+                if not is_ok(rd): continue
+                n += 1
+                h = honest_for([se.log], inp); mark_secret_mac_keys(h, list(sd.pc), inp.K); with_compares(h, sd.log)
+                if public: h['honest_pks'] = [inp.PK]
+                vals = [getattr(inp, 'seed', inp.K), inp.N, utf8(inp.M), utf8(inp.F), utf8(inp.A), utf8(F2)]
+                rec = ses.obligation('%s (segment %s): a token whose footer segment was rewritten to the verifier\'s expectation is accepted only if that is the footer it was built with' % (tag, 'replaced' if with_seg else 'removed'),
+                                     list(sd.pc) + [F2 != inp.F], honest=h, values=vals)
+                if rec:
+                    m = fmt_model(['key', 'nonce', 'message', 'footer', 'assertion', 'footer2'], rec)
+                    steps = key_steps(proto, m) + [build_step(proto, m, 'some', akind)]; alts = []
+                    for ci, f2 in enumerate(dict.fromkeys([_txt(m.get('footer2')), 'other', 'f', '', _txt(m.get('footer')) + 'x'])):
+                        if f2 == _txt(m.get('footer')): continue
+                        steps += [{'op': 'mutate', 'in': '$T', 'out': 'S%d' % ci, 'ops': [{'footer_seg_b64_of': f2}] if f2 != '' else [{'footer_seg': None}]},
+                                  {'op': 'parse_core', 'proto': proto, 'token': '$S%d' % ci, 'key': '$k_pk', 'footer': f2 if f2 != '' else None, 'assertion': None if akind == 'none' else _txt(m.get('assertion')), 'out': 'RS%d' % ci}]
+                        alts.append([{'var': 'RS%d' % ci, 'is': 'ok'}, {'var': 'T', 'is': 'ok'}])
+                    ses.violation('%s: the footer of a token can be exchanged - the rewritten token is accepted by a verifier expecting the new footer' % proto, m, {'steps': steps, 'violated_if': alts})
+    ses.witnesses.append((tag + ': %d accepting paths examined' % n, 'sat'))
     ses.absorb(ex)
 
 
@@ -107,7 +152,9 @@ def run(ses):
         if ses.tier == 'thorough': jobs.append((job_vary, (p, 'key', 'none', 'none')))
     jobs += upper.key_jobs(ses.tier)
     from .. import coreapi
-    jobs.append((coreapi.job_core_api, ()))        # newtype constructors, builder(), setters, Clone: what the caller writes reaches the entry point unchanged
+    jobs.append((coreapi.job_core_api, ())); jobs.append((coreapi.job_key_ctors, ()))        # newtype constructors, builder(), setters, Clone: what the caller writes reaches the entry point unchanged
+    from .. import kani as _kani
+    jobs.append((_kani.job_le64, ()))        # the PAE length prefix is a summary in the SMT runs: Kani checks le64 itself on the compiled code (all 2^64 inputs)
     run_jobs(ses, jobs)
     ses.trusted_base = TRUSTED
     ses.assumptions = ['K\' is any key object of the right type with K\' != K (for P-384: not another encoding of the same point); everything else as at build time']
@@ -115,4 +162,4 @@ def run(ses):
 
 confirm = c01.confirm
 replay = c01.replay
-BASELINE = ['core_api']
+BASELINE = ['core_api', 'key_ctor']
